@@ -25,15 +25,17 @@ void hx_desc(const char *fmt, ...)
 
 static char *fixed_env[] = { "PATH=/usr/bin:/bin", "HX_PARENT=1", "LANG=C", NULL };
 
-void hx_begin(void)
+/* called once by the worker: everything an execution inherits (cwd, descriptors 0-2, nothing else below the
+ * harness range, default dispositions, empty mask) is prepared here so that hx_begin() is nearly free */
+void hx_worker_prepare(void)
 {
-  /* a fixed, caller-independent process state */
   if (chdir(hx_workdir) < 0) {
-    snprintf(S->outcome_msg, sizeof S->outcome_msg, "chdir(%s): %s", hx_workdir, strerror(errno));
-    S->outcome = OUT_INFRA;
-    _exit(0);
+    perror(hx_workdir);
+    exit(2);
   }
-  /* standard streams: three distinct regular files so that identities can be checked */
+  /* keep the worker's own stderr for diagnostics */
+  int keep = fcntl(2, F_DUPFD_CLOEXEC, HARNESS_FD_BASE + 500);
+  (void) keep;
   int fd;
   fd = open("stdin.txt", O_RDONLY | O_CREAT, 0644);
   if (fd != 0) { dup2(fd, 0); close(fd); }
@@ -41,7 +43,6 @@ void hx_begin(void)
   if (fd != 1) { dup2(fd, 1); close(fd); }
   fd = open("stderr.txt", O_WRONLY | O_CREAT | O_APPEND, 0644);
   if (fd != 2) { dup2(fd, 2); close(fd); }
-  /* nothing else below the harness range */
   DIR *d = opendir("/proc/self/fd");
   if (d) {
     int dfd = dirfd(d);
@@ -59,7 +60,12 @@ void hx_begin(void)
   sigemptyset(&none);
   sigprocmask(SIG_SETMASK, &none, NULL);
   for (int s = 1; s < 32; s++)
-    if (s != SIGKILL && s != SIGSTOP) signal(s, SIG_DFL);
+    if (s != SIGKILL && s != SIGSTOP && s != SIGALRM) signal(s, SIG_DFL);
+}
+
+void hx_begin(void)
+{
+  signal(SIGALRM, SIG_DFL); /* the worker's watchdog handler is not part of the execution's state */
   vk_exec_init();
   vk_environ = fixed_env;
   vk_faults_armed = 0;
